@@ -63,11 +63,9 @@ Proof.
   pose proof (wp_pool p W) as Fp. unfold Keys.pool_part, pool_fields.
   destruct (pd_pool p) as [|c pl]; cbn [Keys.is_empty].
   - cbn [app]. apply split_free, type_tag_free.
-  - change (Keys.pool_pfx ++ (c :: pl) ++ [Keys.us])%list
-      with (L "pool" ++ Keys.us :: [] ++ Keys.us :: (c :: pl) ++ [Keys.us])%list.
-    rewrite <- !app_assoc. cbn [app].
-    change (L "pool" ++ Keys.us :: Keys.us :: c :: pl ++ Keys.us :: type_tag (pd_kind p))%list
-      with (L "pool" ++ Keys.us :: [] ++ Keys.us :: (c :: pl) ++ Keys.us :: type_tag (pd_kind p))%list.
+  - replace ((Keys.pool_pfx ++ (c :: pl) ++ [Keys.us]) ++ type_tag (pd_kind p))%list
+      with (L "pool" ++ Keys.us :: [] ++ Keys.us :: (c :: pl) ++ Keys.us :: type_tag (pd_kind p))%list
+      by (rewrite <- !app_assoc; reflexivity).
     rewrite split_app_sep, split_app_sep, split_app_sep.
     rewrite (split_free Keys.us (L "pool")) by (vm_compute; intuition discriminate).
     rewrite (split_free Keys.us []) by apply free_nil.
@@ -85,10 +83,10 @@ Proof.
   rewrite (pod_key_split p Wp), (pod_key_split q Wq) in E. rewrite !type_prefix_tag.
   unfold pool_fields in E.
   destruct (pd_pool p) as [|c pl], (pd_pool q) as [|c' pl']; cbn [app] in E.
-  - injection E as E1 E2 E3 E4. rewrite E1. auto.
-  - exfalso. injection E as _ _ _ E. discriminate E.
-  - exfalso. injection E as _ _ _ E. discriminate E.
-  - injection E as E0 E1 E2 E3 E4. rewrite E1. subst. auto.
+  - injection E as E1 E2 E3 E4. rewrite E1, E2, E3, E4. repeat split; reflexivity.
+  - exfalso. apply (f_equal List.length) in E. discriminate E.
+  - exfalso. apply (f_equal List.length) in E. discriminate E.
+  - injection E as E0 E1 E2 E3 E4 E5. rewrite E0, E1, E2, E3, E4, E5. repeat split; reflexivity.
 Qed.
 
 Lemma pod_key_inj p q : wf_pod p → wf_pod q → pod_key p = pod_key q → pk p = pk q.
